@@ -363,6 +363,10 @@ func (x *Exec) opSleep(st *Step) {
 	for _, c := range x.w.clients {
 		c.freshChallenge = false
 	}
+	if x.SleptFor == nil {
+		x.SleptFor = map[int]int{}
+	}
+	x.SleptFor[x.w.stepNo] = int(d / time.Second)
 	quiet := x.w.closed && x.w.callbacksActive() == 0
 	logBefore, evBefore := x.w.log.Calls.Load(), x.eventCount()
 	time.Sleep(d)
